@@ -939,6 +939,7 @@ void flexinit (int argc, char **argv)
 
 		    case OPT_TABLES_VERIFY:
 			tablesverify = true;
+			tablesext = true;
 			break;
 
 		    case OPT_TRACE:
